@@ -612,6 +612,18 @@ class SymDict(dict):
     def __len__(self): return len(self._pairs)
     def __bool__(self): return bool(self._pairs)
     def copy(self): return SymDict(self.items())
+    def __copy__(self): return self.copy()
+
+    def __deepcopy__(self, memo):
+        import copy as _copy
+        new = SymDict()
+        memo[id(self)] = new
+        for k, v in self._pairs:
+            new[_copy.deepcopy(k, memo)] = _copy.deepcopy(v, memo)
+        return new
+
+    def __reduce__(self):
+        return (SymDict, (self.items(),))
 
     def __delitem__(self, k):
         self.pop(k)
